@@ -28,14 +28,6 @@ Definition enc_lstate (ls : lstate) : list N :=
   ++ N.of_nat (length ms) :: flat_map (fun p => [fst p; snd p]) ms
   ++ N.of_nat (length (l_inflight ls)) :: map (fun x => e_idx (fst x)) (l_inflight ls).
 
-Definition server_eqb (a b : server) : bool :=
-  (s_suff a =? s_suff b) && (s_id a =? s_id b) && (s_addr a =? s_addr b).
-Fixpoint config_eqb (a b : config) : bool :=
-  match a, b with
-  | [], [] => true
-  | x :: r, y :: r' => server_eqb x y && config_eqb r r'
-  | _, _ => false
-  end.
 (* payload id of the entry that encodes a configuration: its key in the case's table *)
 Fixpoint encode_cfg (t : list (N * config)) (c : config) : N :=
   match t with
